@@ -19,13 +19,13 @@ Definition w_f : fn :=
          (BCons (SLoop 5 (BCons (SSimple 6) BNil) BNil) (BCons (SReturn 7) BNil))).
 Definition w_E : list edge := [(1, 2); (2, 3); (2, 4); (3, 5); (4, 5); (5, 6); (5, 7); (6, 5); (7, 0)].
 Definition w_ns : list rnode :=
- [(mknode 1 true (mkscope [] [] [1; 2; 3] [] [] [] [] [1; 2; 3] []) [] [] [] [1; 2; 3] [] [] [(1, 1); (2, 1); (3, 1)] [] [1; 2; 3] [] [] 0);
-  (mknode 2 true (mkscope [4] [] [] [] [] [] [] [] []) [] [] [] [] [] [(1, 1); (2, 1); (3, 1)] [(1, 1); (2, 1); (3, 1)] [4] [] [] [] 0);
-  (mknode 3 true (mkscope [5] [6] [6] [] [] [] [] [] []) [] [] [] [6] [] [(1, 1); (2, 1); (3, 1)] [(1, 1); (2, 1); (3, 1); (6, 3)] [5] [6] [] [] 0);
-  (mknode 4 true (mkscope [5] [6] [6] [] [] [] [] [] []) [] [] [] [6] [] [(1, 1); (2, 1); (3, 1)] [(1, 1); (2, 1); (3, 1); (6, 4)] [5] [6] [] [] 0);
-  (mknode 5 true (mkscope [7] [6] [6] [] [] [] [] [] []) [] [] [] [6] [] [(1, 1); (2, 1); (3, 1); (6, 3); (6, 4); (6, 5)] [(1, 1); (2, 1); (3, 1); (6, 5)] [7] [] [] [6] 6);
-  (mknode 6 false empty_scope [] [] [] [] [] [(1, 1); (2, 1); (3, 1); (6, 5)] [(1, 1); (2, 1); (3, 1); (6, 5)] [] [] [] [] 0);
-  (mknode 7 true (mkscope [5; 6] [] [] [] [] [] [] [] []) [] [] [] [] [] [(1, 1); (2, 1); (3, 1); (6, 5)] [(1, 1); (2, 1); (3, 1); (6, 5)] [5; 6] [] [] [] 0)].
+ [(mknode 1 true (mkscope [] [] [1; 2; 3] [] [] [] [] [1; 2; 3] []) [] [] [] [] [1; 2; 3] [] [] [(1, 1); (2, 1); (3, 1)] [] [1; 2; 3] [] [] 0 0);
+  (mknode 2 true (mkscope [4] [] [] [] [] [] [] [] []) [] [] [] [] [] [] [(1, 1); (2, 1); (3, 1)] [(1, 1); (2, 1); (3, 1)] [4] [] [] [] 0 0);
+  (mknode 3 true (mkscope [5] [6] [6] [] [] [] [] [] []) [] [] [] [] [6] [] [(1, 1); (2, 1); (3, 1)] [(1, 1); (2, 1); (3, 1); (6, 3)] [5] [6] [] [] 0 0);
+  (mknode 4 true (mkscope [5] [6] [6] [] [] [] [] [] []) [] [] [] [] [6] [] [(1, 1); (2, 1); (3, 1)] [(1, 1); (2, 1); (3, 1); (6, 4)] [5] [6] [] [] 0 0);
+  (mknode 5 true (mkscope [7] [6] [6] [] [] [] [] [] []) [] [] [] [] [6] [] [(1, 1); (2, 1); (3, 1); (6, 3); (6, 4); (6, 5)] [(1, 1); (2, 1); (3, 1); (6, 5)] [7] [] [] [6] 6 6);
+  (mknode 6 false empty_scope [] [] [] [] [] [] [(1, 1); (2, 1); (3, 1); (6, 5)] [(1, 1); (2, 1); (3, 1); (6, 5)] [] [] [] [] 0 0);
+  (mknode 7 true (mkscope [5; 6] [] [] [] [] [] [] [] []) [] [] [] [] [] [] [(1, 1); (2, 1); (3, 1); (6, 5)] [(1, 1); (2, 1); (3, 1); (6, 5)] [5; 6] [] [] [] 0 0)].
 
 Theorem reachdef_for_header_refuted :
   exists (E : list edge) (ns : list rnode) (f : fn) n d tr o d' pre w mid r post x,
